@@ -987,7 +987,7 @@ func TestC04_R_BulkReads(t *testing.T) {
 func TestC08_R_LargeDirectories(t *testing.T) {
 	for _, c := range []struct{ n, fanout, nameLen int }{{65536, 256, 0}, {65537, 256, 0}, {70001, 256, 0}, {66000, 1024, 0},
 		// beyond 2^17 entries, counts that are no multiple of anything convenient
-		{131077, 256, 0}, {140003, 64, 0},
+		{131077, 256, 0}, {140003, 64, 0}, {262149, 256, 0},
 		// long names in a wide shard: single shard blocks of well over 1 MiB (the reference writes them as they come)
 		{600, 1024, 3500}, {1500, 1024, 4000}, {300, 512, 9000}} {
 		es := make([]entrySpec, c.n)
@@ -2039,7 +2039,7 @@ func TestC08_R_VeryLongNames(t *testing.T) { veryLongNames(t) }
 func veryLongNames(t *testing.T) {
 	var es []entrySpec
 	want := map[string]cid.Cid{}
-	for i, l := range []int{4095, 4096, 4097, 5000, 65535, 65536, 70000} {
+	for i, l := range []int{4095, 4096, 4097, 5000, 65535, 65536, 70000, 1<<20 - 3, 1 << 20, 1<<20 + 17} {
 		name := fmt.Sprintf("name-of-%d-bytes-", l)
 		name += strings.Repeat(string(rune('a'+i)), l-len(name))
 		es = append(es, entryFor(name, 0))
@@ -2069,18 +2069,18 @@ func veryLongNames(t *testing.T) {
 			root, _, err = refBuildShard(st, es, 256)
 		}
 		if err != nil {
-			t.Fatalf("C02: %s directory with names of up to 70000 bytes: %v", how, err)
+			t.Fatalf("C02: %s directory with names of up to a MiB: %v", how, err)
 		}
 		for _, reifier := range []string{"unixfs", "unixfs-preload"} {
 			rn, err := loadReified(st.LinkSystem(), root, reifier)
 			if err != nil {
-				t.Fatalf("C02: %s directory with names of up to 70000 bytes via %s: %v", how, reifier, err)
+				t.Fatalf("C02: %s directory with names of up to a MiB via %s: %v", how, reifier, err)
 			}
 			if err := checkDirIsMap(rn, want, nonMembers); err != nil {
 				if len(err.Error()) > 400 {
 					err = fmt.Errorf("%.400s...", err.Error())
 				}
-				t.Fatalf("C02: %s directory with names of 4095 .. 70000 bytes via %s: %v", how, reifier, err)
+				t.Fatalf("C02: %s directory with names of 4095 bytes .. 1 MiB via %s: %v", how, reifier, err)
 			}
 		}
 	}
